@@ -7,7 +7,7 @@ use response_time_analysis::fixed_point::{self, SearchFailure, SearchResult};
 use response_time_analysis::supply::{self, SupplyBound};
 use response_time_analysis::time::{Duration, Offset, Service};
 use response_time_analysis::wcet::{self, JobCostModel, Scalar};
-use response_time_analysis::{fifo, fixed_priority};
+use response_time_analysis::{edf, fifo, fixed_priority};
 use std::panic::{catch_unwind, AssertUnwindSafe};
 
 fn d(x: u64) -> Duration { Duration::from(x) }
@@ -310,6 +310,24 @@ fn check_analyses(seed: u64) -> i32 {
         let tot = { let tf = tua_f.clone(); let hf = hp_f.clone(); move |x: u64| tf(x) + hf(x) };
         let exp = dscan(limit, &|x| tot(x)).map(|l| (0..l).map(|a| tot(a + 1) - a).max().unwrap_or(0));
         cmp!("fifo::dedicated_uniproc_rta", fifo::dedicated_uniproc_rta(&demand::Slice::of(&all), d(limit)), exp);
+        // fully preemptive EDF with arbitrary relative deadlines
+        let dl0 = 1 + r.below(3 * t0);
+        let dls: Vec<u64> = hp.iter().map(|(t, _, _)| 1 + r.below(3 * t)).collect();
+        let others: Vec<_> = hps.iter().zip(dls.iter()).map(|(rb, dl)| edf::fully_preemptive::Task { rbf: rb, deadline: d(*dl) }).collect();
+        let hp3 = hp.clone(); let dls3 = dls.clone();
+        let rbf_o = move |i: usize, x: u64| { let (t, j, c) = hp3[i]; if x == 0 { 0 } else { c * ceil_div(x + j, t) } };
+        let exp_edf = (|| {
+            let n = dls3.len();
+            let l = dscan(limit, &|x| (0..n).map(|i| rbf_o(i, x)).sum::<u64>() + tua_f(x))?;
+            let mut best = 0u64;
+            for a in 0..l {
+                let af = dscan(limit, &|x| tua_f(a + 1) + (0..n).map(|i| rbf_o(i, x.min((a + 1 + dl0).saturating_sub(dls3[i])))).sum::<u64>())?;
+                best = best.max(af.saturating_sub(a));
+            }
+            Some(best)
+        })();
+        let desc = format!("{{\"tua\": [{}, {}, {}, {}], \"others\": {:?}, \"deadlines\": {:?}, \"limit\": {}}}", t0, j0, c0, dl0, hp, dls, limit);
+        cmp!("edf::fully_preemptive::dedicated_uniproc_rta", edf::fully_preemptive::dedicated_uniproc_rta(&edf::fully_preemptive::Task { rbf: &tua_rbf, deadline: d(dl0) }, &others, d(limit)), exp_edf);
     }
     0
 }
